@@ -37,9 +37,11 @@ type Seen = Arc<Mutex<Vec<String>>>;
 #[derive(Debug)] pub struct LLoc;
 
 impl StatusAdapter for LStatus {
-    async fn status(&self, client_addr: &SocketAddr, _s: (&str, u16), _p: Protocol) -> passage_adapters::Result<Option<ServerStatus>> {
+    async fn status(&self, client_addr: &SocketAddr, s: (&str, u16), _p: Protocol) -> passage_adapters::Result<Option<ServerStatus>> {
         self.0.lock().unwrap().push(format!("status:{}", client_addr.ip()));
-        Ok(Some(ServerStatus { version: ServerVersion { name: "pv".into(), protocol: 767 }, players: None, description: None, favicon: None, enforces_secure_chat: None }))
+        // a status far larger than a small receive window, for clients that ask and then never read
+        let favicon = if s.0 == "bigstatus" { Some(format!("data:image/png;base64,{}", "A".repeat(200_000))) } else { None };
+        Ok(Some(ServerStatus { version: ServerVersion { name: "pv".into(), protocol: 767 }, players: None, description: None, favicon, enforces_secure_chat: None }))
     }
 }
 impl AuthenticationAdapter for LAuth {
@@ -83,9 +85,11 @@ pub struct SrvOpts {
     pub gated: bool,
     /// one idle listen()/stop cycle on the same Listener before the cycle under test
     pub warmup: bool,
+    /// the same Listener is started again (for 1.2 s) after the cycle under test has returned
+    pub cycle_after: bool,
 }
 impl Default for SrvOpts {
-    fn default() -> Self { SrvOpts { proxy: None, limiter: None, timeout: Duration::from_secs(3), secret: None, max_len: 10_000, expiry: 21_600, gated: false, warmup: false } }
+    fn default() -> Self { SrvOpts { proxy: None, limiter: None, timeout: Duration::from_secs(3), secret: None, max_len: 10_000, expiry: 21_600, gated: false, warmup: false, cycle_after: false } }
 }
 
 type L = Listener<LStatus, LDisc, LFilt, LStrat, LAuth, LLoc>;
@@ -136,8 +140,11 @@ impl Srv {
     /// the real listener on its own thread and current-thread runtime
     pub fn start(o: &SrvOpts) -> Srv {
         // a port probed as free can be taken by a parallel case before the listener binds it: try again
-        for _ in 0..4 { if let Some(s) = Self::try_start(o) { return s; } }
-        panic!("the listener did not come up in four attempts (listen() fails or returns at once)");
+        Self::start_opt(o).expect("the listener did not come up in four attempts (listen() fails or returns at once)")
+    }
+    pub fn start_opt(o: &SrvOpts) -> Option<Srv> {
+        for _ in 0..4 { if let Some(s) = Self::try_start(o) { return Some(s); } }
+        None
     }
     fn try_start(o: &SrvOpts) -> Option<Srv> {
         let port = free_port();
@@ -162,6 +169,12 @@ impl Srv {
                 }
                 let _ = l.listen(("127.0.0.1", port), stop2).await;
                 *ret2.lock().unwrap() = Some(Instant::now());
+                if o2.cycle_after {
+                    let again = CancellationToken::new();
+                    let a2 = again.clone();
+                    tokio::spawn(async move { tokio::time::sleep(Duration::from_millis(1200)).await; a2.cancel(); });
+                    let _ = l.listen(("127.0.0.1", port), again).await;
+                }
             });
             // the process would exit here: whatever is still running is cut
             rt.shutdown_timeout(Duration::from_millis(0));
@@ -691,7 +704,14 @@ fn c15_case(req: &str) -> Case {
                     // through the application the adapters are the configured ones: the address they see is not observable
                     match (addr, eff) { (Some(ip), _) => format!("S{}", id_of(ip)), (None, Some(ip)) if via_app => format!("S{}", id_of(ip)), (None, None) if via_app => "S!".into(), _ => "S?".into() }
                 }
-                Recv::Closed => { if c.bytes_in > 0 { why.push(format!("connection {k}: closed after {} bytes were sent to it", c.bytes_in)); } if class == HClass::Invalid { "C".into() } else { "R".into() } }
+                Recv::Closed => {
+                    if c.bytes_in > 0 { why.push(format!("connection {k}: closed after {} bytes were sent to it", c.bytes_in)); }
+                    // closed means released: the server does not go on holding (reading from) the socket of a connection it turned away
+                    let mut released = false;
+                    for _ in 0..8 { if !c.raw(&[0u8; 64]).await { released = true; break; } tokio::time::sleep(Duration::from_millis(25)).await; }
+                    if !released { why.push(format!("connection {k}: turned away, but the server kept the socket open and went on accepting bytes from it")); }
+                    if class == HClass::Invalid { "C".into() } else { "R".into() }
+                }
                 Recv::Timeout => "H".into(),
                 _ => "G".into(),
             };
@@ -739,13 +759,16 @@ pub fn run_c15(a: &Args) {
     for _ in 0..a.cases {
         let proxy = !rng.chance(1, 4);
         let allow = *rng.pick(&["11", "11", "10", "01"]);
-        let limit = if rng.chance(1, 5) { "off".to_string() } else { rng.range(1, 4).to_string() };
+        let limit = if rng.chance(1, 5) { "off".to_string() } else if rng.chance(1, 8) { "0".to_string() } else { rng.range(1, 4).to_string() };
         let n = rng.range(4, 14) as usize;
         // a few hot headers so budgets are exhausted, bad ones in between
         let hot: Vec<usize> = (0..3).map(|_| rng.below(MENU as u64) as usize).collect();
         let hdrs: Vec<String> = (0..n).map(|_| format!("{}/{}", rng.range(1, 3), if rng.chance(2, 3) { *rng.pick(&hot) } else { rng.below(MENU as u64) as usize })).collect();
         reqs.push(format!("c15.run proxy={} allow={allow} limit={limit} via={} hdrs={} login={}", u8::from(proxy), if rng.chance(1, 4) { "app" } else { "listener" }, hdrs.join(";"), u8::from(rng.chance(1, 3))));
     }
+    // the boundary configuration "nobody is admitted", through the application entry point and through the Listener
+    reqs.push("c15.run proxy=0 allow=11 limit=0 via=app hdrs=1/7;2/7;1/7 login=0".into());
+    reqs.push("c15.run proxy=1 allow=11 limit=0 via=listener hdrs=1/0;2/4;1/1 login=0".into());
     let cases = retry_failed(par_cases(a.seed, reqs.len(), |i, _| c15_case(&reqs[i])), &reqs, c15_case);
     write_cases(&a.out, &cases).expect("write cases");
     println!("c15: {} cases", cases.len());
@@ -758,8 +781,8 @@ const SERVE_BOUND_MS: u64 = 1000;
 /// what a stalled client does before it goes silent
 async fn stall(port: u16, proxy: bool, stage: &str) -> Option<Cli> {
     if stage == "rst-burst" {
-        // connect scanners / health checkers: connect and abort (RST) at once, some before the accept loop reaches them
-        for _ in 0..24 {
+        // connect scanners / health checkers: connect and abort (RST) at once — 300 in a row, so that some are reset while still in the accept queue
+        for _ in 0..300 {
             // from the hostile peer's own address (127.0.0.2), so it never spends the well-behaved client's budget
             let Ok(s) = socket2::Socket::new(socket2::Domain::IPV4, socket2::Type::STREAM, None) else { continue };
             let _ = s.bind(&SocketAddr::new(IpAddr::V4(Ipv4Addr::new(127, 0, 0, 2)), 0).into());
@@ -767,6 +790,20 @@ async fn stall(port: u16, proxy: bool, stage: &str) -> Option<Cli> {
             drop(s);
         }
         return None;
+    }
+    if stage == "no-read" {
+        // asks for a large status with a tiny receive window and never reads: the reply stays queued in the server's socket
+        let sock = socket2::Socket::new(socket2::Domain::IPV4, socket2::Type::STREAM, None).ok()?;
+        let _ = sock.set_recv_buffer_size(1024);
+        let _ = sock.bind(&SocketAddr::new(IpAddr::V4(Ipv4Addr::new(127, 0, 0, 2)), 0).into());
+        sock.connect(&SocketAddr::new(IpAddr::V4(Ipv4Addr::LOCALHOST), port).into()).ok()?;
+        sock.set_nonblocking(true).ok()?;
+        let s = TcpStream::from_std(sock.into()).ok()?;
+        let mut c = Cli { s, enc: None, rx: vec![], phase: ClientPhase::Status, bytes_in: 0, t0: Instant::now(), should_auth: None, got_transfer: false, stored_auth: None, auth_requested: false };
+        if proxy { c.raw(&header_menu(0)).await; }
+        c.send(&b::handshake(767, b"bigstatus", 25565, 1)).await;
+        c.send(&b::status_request()).await;
+        return Some(c);
     }
     let mut c = Cli::connect(port, Some(Ipv4Addr::new(127, 0, 0, 2))).await.ok()?;
     let hdr = header_menu(0);
@@ -831,7 +868,7 @@ pub fn run_c16(a: &Args) {
     let mut rng = Rng::new(a.seed);
     for _ in 0..a.cases {
         let proxy = rng.chance(2, 3);
-        let menu: Vec<&str> = if proxy { vec!["pre", "in", "accepted", "mid-frame", "mid-login", "enc", "no-keepalive", "junk", "half-closed", "rst-burst"] } else { vec!["accepted", "mid-frame", "mid-login", "enc", "no-keepalive", "junk", "half-closed", "rst-burst"] };
+        let menu: Vec<&str> = if proxy { vec!["pre", "in", "accepted", "mid-frame", "mid-login", "enc", "no-keepalive", "junk", "half-closed", "rst-burst", "no-read"] } else { vec!["accepted", "mid-frame", "mid-login", "enc", "no-keepalive", "junk", "half-closed", "rst-burst", "no-read"] };
         let k = rng.below(5) as usize;
         let st: Vec<&str> = (0..k).map(|_| *rng.pick(&menu)).collect();
         reqs.push(format!("c16.run proxy={} limiter={} gap={} stalled={}", u8::from(proxy), u8::from(rng.chance(1, 2)), if rng.chance(1, 6) { 1300 } else { 0 }, if st.is_empty() { "-".to_string() } else { st.join(",") }));
@@ -855,8 +892,13 @@ fn c17_case(req: &str) -> Case {
     let timeout_ms = kvs(req, "timeout").and_then(|s| s.parse().ok()).unwrap_or(C17_TIMEOUT_MS);
     let proxy = kvs(req, "proxy").as_deref() == Some("1");
     let restart = kvs(req, "restart").as_deref() == Some("1");
+    // `again=1`: the same Listener is started once more after listen() returned; connections that arrived after the stop must not be served then either
+    let again = kvs(req, "again").as_deref() == Some("1");
     rt().block_on(async {
-        let srv = Srv::start(&SrvOpts { proxy: if proxy { Some((true, true)) } else { None }, warmup: restart, timeout: Duration::from_millis(timeout_ms), gated: true, secret: Some(b"s3cret".to_vec()), ..Default::default() });
+        let Some(srv) = Srv::start_opt(&SrvOpts { proxy: if proxy { Some((true, true)) } else { None }, warmup: restart, cycle_after: again, timeout: Duration::from_millis(timeout_ms), gated: true, secret: Some(b"s3cret".to_vec()), ..Default::default() }) else {
+            let request = format!("c17.run inflight={} late={late} stages={st} open_after={open_after} timeout={timeout_ms} proxy={} restart={} again={}", stages.len(), u8::from(proxy), u8::from(restart), u8::from(again));
+            return Case { request, observed: "late=0 early_return=0 returned=0".into(), oracle: Some(format!("the Listener never listened on the address it was given{}", if restart { " (it had been started and stopped once before on another address)" } else { "" })), class: "listener-not-up".into() };
+        };
         let ready = Arc::new(Semaphore::new(0));
         let go = Arc::new(Semaphore::new(0));
         let mut tasks = vec![];
@@ -885,10 +927,16 @@ fn c17_case(req: &str) -> Case {
         let t_stop = Instant::now();
         go.add_permits(stages.len());
         tokio::time::sleep(Duration::from_millis(100)).await;
-        let mut late_served = 0;
+        // connections opened after the stop: each sends its status request at once and keeps waiting for an answer
+        // (briefly; with `again=1` until after the Listener has been started a second time)
+        let mut late_tasks = vec![];
         for _ in 0..late {
-            if let Ok(mut c) = Cli::connect(srv.port, None).await { if proxy { c.raw(&header_menu(1)).await; } if c.status(Duration::from_millis(300)).await.is_some() { late_served += 1; } }
+            let (port, wait) = (srv.port, if again { timeout_ms + 2500 } else { 300 });
+            late_tasks.push(tokio::spawn(async move {
+                match Cli::connect(port, None).await { Ok(mut c) => { if proxy { c.raw(&header_menu(1)).await; } c.status(Duration::from_millis(wait)).await.is_some() } Err(_) => false }
+            }));
         }
+        if !again { tokio::time::sleep(Duration::from_millis(320)).await; }
         let returned_early_probe = srv.returned_at();
         if open_after > 0 { tokio::time::sleep(Duration::from_millis(open_after)).await; }
         srv.gate.add_permits(64);
@@ -899,6 +947,8 @@ fn c17_case(req: &str) -> Case {
             if coop && !transferred { why.push(format!("in-flight client {i} ({}) cooperated but never received its Transfer", stages[i])); }
             if let Some(d) = done { if last_done.is_none_or(|l| d > l) { last_done = Some(d); } }
         }
+        let mut late_served = 0;
+        for t in late_tasks { if t.await.unwrap_or(false) { late_served += 1; } }
         // listen() must return, and only after the last session finished
         let deadline = t_stop + Duration::from_millis(timeout_ms + 1500);
         while srv.returned_at().is_none() && Instant::now() < deadline { tokio::time::sleep(Duration::from_millis(10)).await; }
@@ -910,7 +960,7 @@ fn c17_case(req: &str) -> Case {
         if early { why.push("listen() returned while in-flight sessions were still running".into()); }
         if ret.is_none() { why.push(format!("listen() had not returned {} ms after the stop request", timeout_ms + 1500)); }
         let observed = format!("late={late_served} early_return={} returned={}", u8::from(early), u8::from(ret.is_some()));
-        let request = format!("c17.run inflight={} late={late} stages={st} open_after={open_after} timeout={timeout_ms} proxy={} restart={}", stages.len(), u8::from(proxy), u8::from(restart));
+        let request = format!("c17.run inflight={} late={late} stages={st} open_after={open_after} timeout={timeout_ms} proxy={} restart={} again={}", stages.len(), u8::from(proxy), u8::from(restart), u8::from(again));
         Case { request, observed, oracle: if why.is_empty() { None } else { Some(why.join("; ")) }, class: format!("inflight={} late={} backend={} proxy={} restart={}", stages.len().min(3), late.min(2), if open_after > 0 { "slow" } else { "prompt" }, u8::from(proxy), u8::from(restart)) }
     })
 }
@@ -985,7 +1035,16 @@ fn c17_app(_req: &str) -> Case {
         });
         let is_ready = tokio::time::timeout(Duration::from_millis(1500), ready.acquire()).await.is_ok();
         tokio::time::sleep(Duration::from_millis(50)).await;
-        // SAFETY: raising a signal for which the application has installed its ctrl-c handler
+        // only once the application's ctrl-c handler is installed (SigCgt has the SIGINT bit): otherwise the signal would end this process
+        let caught = || std::fs::read_to_string("/proc/self/status").ok().and_then(|t| t.lines().find_map(|l| l.strip_prefix("SigCgt:").map(|h| u64::from_str_radix(h.trim(), 16).unwrap_or(0)))).is_some_and(|m| m & 0x2 != 0);
+        let t_wait = Instant::now();
+        while !caught() && t_wait.elapsed() < Duration::from_secs(2) { tokio::time::sleep(Duration::from_millis(10)).await; }
+        if !caught() {
+            go.add_permits(1);
+            let _ = task.await;
+            return Case { request: "c17.run inflight=1 late=0 stages=mid-login open_after=0 via=app".into(), observed: "late=0 early_return=0 returned=0".into(), oracle: Some("the application never installed a ctrl-c handler: it cannot be stopped by SIGINT".into()), class: "app:ctrl-c".into() };
+        }
+        // SAFETY: raising a signal for which the application has installed its handler
         unsafe { libc::raise(libc::SIGINT); }
         let t_stop = Instant::now();
         tokio::time::sleep(Duration::from_millis(300)).await;
@@ -1023,7 +1082,7 @@ pub fn run_c17(a: &Args) {
         let k = rng.below(5) as usize;
         let proxy = rng.chance(1, 3);
         let st: Vec<&str> = (0..k).map(|_| *rng.pick(if proxy { &["accepted", "pre-header", "pre-header", "mid-login", "backend", "transfer"][..] } else { &["accepted", "mid-login", "backend", "backend", "transfer"][..] })).collect();
-        reqs.push(format!("c17.run inflight={k} late={} stages={} open_after={} proxy={} restart={}", rng.below(3), if st.is_empty() { "-".to_string() } else { st.join(",") }, rng.pick(&[0u64, 0, 300, 600]), u8::from(proxy), u8::from(rng.chance(1, 3))));
+        reqs.push(format!("c17.run inflight={k} late={} stages={} open_after={} proxy={} restart={} again={}", rng.below(3), if st.is_empty() { "-".to_string() } else { st.join(",") }, rng.pick(&[0u64, 0, 300, 600]), u8::from(proxy), u8::from(rng.chance(1, 3)), u8::from(rng.chance(1, 4))));
     }
     let cases = retry_failed(par_cases(a.seed, reqs.len(), |i, _| c17_case(&reqs[i])), &reqs, c17_case);
     write_cases(&a.out, &cases).expect("write cases");
